@@ -1293,8 +1293,10 @@ def _pyser(v):
             return [4, int(v < 0)]
         if v == 0.0:
             return [3, int(math.copysign(1.0, v) < 0), 0, 0]
-        m, e = math.frexp(abs(v))
-        return [3, int(v < 0), int(m * (1 << 53)), e - 53]
+        # canonical (mantissa, exponent) of SpecFloat / Prim2SF: exponent = max(exp - 53, -1074), also for subnormals
+        m, ex = math.frexp(abs(v))
+        e = max(ex - 53, -1074)
+        return [3, int(v < 0), int(math.ldexp(m, ex - e)), e]
     if isinstance(v, str):
         b = v.encode("utf8", "surrogatepass")
         return [6, len(b)] + list(b)
